@@ -49,10 +49,15 @@ def occurrences(m):
             stack.extend(x.propositions)
     return out
 
+def cls_name(x):
+    """the class itself, not only its name: puan.modules.configurator.Any and puan.logic.plog.Any are different classes"""
+    t = type(x)
+    return t.__module__ + "." + t.__qualname__
+
 def sig(p, with_class):
     if is_var(p):
         return ("v", p.id, bnd(p))
-    return ("c", type(p).__name__ if with_class else "", p.id, bnd(p), int(p.sign), int(p.value),
+    return ("c", cls_name(p) if with_class else "", p.id, bnd(p), int(p.sign), int(p.value),
             tuple(sig(c, with_class) for c in p.propositions))
 
 def diff(a, b, out):
@@ -137,7 +142,7 @@ def analyse(m):
             identical = False
     coherent = True
     for i, l in groups.items():
-        cl = [type(x).__name__ for x in l if not is_var(x)]
+        cl = [cls_name(x) for x in l if not is_var(x)]
         if any(c != cl[0] for c in cl[1:]):
             coherent = False
     return {"cyclic": cyc, "dup_child": dup, "diffs": diffs, "repeated": repeated, "class_coherent": coherent,
@@ -556,6 +561,11 @@ def gen_case(rng, stream):
                 return "d4:leaf-bounds-m1", top
         top = mutate(top, adv, r, mu, collide=True)
         return "d4:" + mu, top
+    if stream == "config":
+        # configurator models: defaulted cc.Any / cc.Xor rules (their non-default branch carries a `prio` tag) next to
+        # untagged twins of those branches - they merely share identical sub-propositions
+        from props.c14 import CfgGen
+        return "config", CfgGen(random.Random(rng.getrandbits(64))).config()
     if stream == "d12":
         top = adv.comp(r.randint(0, 2), kinds=["AtLeast", "AtMost", "All", "Any"])
         return "d12:childless-redef", mutate(top, adv, r, "childless-redef", collide=True)
@@ -749,7 +759,7 @@ def run(res, tier, seed):
     rng = random.Random(seed * 1000003 + 10)
     res.rule = RULE
     k = 1 if tier == "quick" else 12
-    plan = [("tree", 130 * k), ("share", 130 * k), ("mutate", 420 * k), ("d4", 80 * k), ("d12", 20 * k)]
+    plan = [("tree", 130 * k), ("share", 130 * k), ("mutate", 420 * k), ("d4", 80 * k), ("d12", 20 * k), ("config", 70 * k)]
     todo = list(corpus())
     for stream, n in plan:
         for _ in range(n):
